@@ -249,6 +249,10 @@ func (o *objectGoArrayReflect) defineOwnPropertyIdx(idx valueInt, descr Property
 		}
 		val := descr.Value
 		if val == nil {
+			if i < o.fieldsValue.Len() {
+				// no [[Value]] in the descriptor: the existing element stays
+				return true
+			}
 			val = _undefined
 		}
 		return o.putIdx(i, val, throw)
@@ -264,6 +268,9 @@ func (o *objectGoArrayReflect) defineOwnPropertyStr(name unistring.String, descr
 		}
 		val := descr.Value
 		if val == nil {
+			if idx < o.fieldsValue.Len() {
+				return true
+			}
 			val = _undefined
 		}
 		return o.putIdx(idx, val, throw)
